@@ -172,7 +172,7 @@ Definition w_mm_read (rows cols : Z) (ws : list word) (len : Z) : wres wview :=
   | None => WErr
   | Some st1 =>
     let '(s1, d) := match st1 with Some x => x | None => (0, m0) end in       (* at EOF the state stays at record 0 *)
-    match w_walk (S (length ws)) ws len s1 d d 1 with
+    match w_walk (S (Z.to_nat len)) ws len s1 d d 1 with                    (* fuel: every advance moves >= 8 bytes forward *)
     | WErr => WErr
     | WHang => WHang
     | WOk (lays2, szd) =>
